@@ -36,6 +36,7 @@ func runC08(c *Ctx) {
 	c.ruleSubmitPaths("R08.3", submitChecks{reject: true})
 	c.ruleCounterViews("R08.4")
 	c.ruleEmptyBatch("R08.5")
+	c.rulePlainStatusStores("R08.6")
 }
 
 func (c *Ctx) ruleLastFinisher(rule string) {
@@ -91,6 +92,10 @@ func (c *Ctx) ruleLastFinisher(rule string) {
 				fmt.Sprintf("loaded %s, swap won=%v → reports %v", loaded, won, wantTrue), fmt.Sprintf("WgCounter.Done must report true exactly when its own compare-and-swap took the counter from 1 to 0 (loaded %s, won %v, reports %s): %s", loaded, won, sg.Ret[0], desc))
 		} else {
 			c.Rep.fail(rule, done.Short(), "Done does not report whether it was the last", sg.End, "WgCounter.Done has no result: callers can only find the last finisher with a separate Count(), which is a check-then-act")
+		}
+		if loaded != "0" && loaded != "" {
+			c.Rep.check(won, rule, done.Short(), "Done gives up after a lost compare-and-swap", sg.End, "non-zero counter ⇒ the call ends only after winning a swap",
+				"WgCounter.Done returns without having decremented a non-zero counter (its compare-and-swap lost against another finisher and it did not retry): that item is never counted off, the batch's Wait() blocks for ever: "+desc)
 		}
 		if loaded == "0" {
 			c.Rep.check(!sg.has("cas") && !sg.has("release"), rule, done.Short(), "Done on a zero counter has effects", sg.End, "zero counter left untouched", "WgCounter.Done on a counter that is already zero must do nothing: "+desc)
